@@ -199,7 +199,7 @@ pub fn inproc_cell(spec: &Value) -> Value {
 // ---------------------------------------------------------------- bundled client behind a lossy relay
 
 /// A UDP relay between the bundled client and the real server that drops the n-th datagram it sees (either direction).
-fn relay(server: std::net::SocketAddr, drop_nth: usize, stop: std::sync::Arc<std::sync::atomic::AtomicBool>) -> (u16, std::thread::JoinHandle<Vec<String>>) {
+fn relay(server: std::net::SocketAddr, drop_nth: usize, silent_from: usize, stop: std::sync::Arc<std::sync::atomic::AtomicBool>) -> (u16, std::thread::JoinHandle<Vec<String>>) {
     use std::net::UdpSocket;
     let front = UdpSocket::bind("127.0.0.1:0").unwrap();
     let back = UdpSocket::bind("127.0.0.1:0").unwrap();
@@ -220,8 +220,10 @@ fn relay(server: std::net::SocketAddr, drop_nth: usize, stop: std::sync::Arc<std
                 idle = false;
                 client = Some(from);
                 n += 1;
-                if n == drop_nth {
-                    log.push(format!("dropped #{n} client->server {}", crate::refcodec::describe(&buf[..k])));
+                if n == drop_nth || n >= silent_from {
+                    if log.len() < 4 {
+                        log.push(format!("dropped #{n} client->server {}", crate::refcodec::describe(&buf[..k])));
+                    }
                 } else {
                     let _ = back.send_to(&buf[..k], srv_peer);
                 }
@@ -230,8 +232,10 @@ fn relay(server: std::net::SocketAddr, drop_nth: usize, stop: std::sync::Arc<std
                 idle = false;
                 srv_peer = from;
                 n += 1;
-                if n == drop_nth {
-                    log.push(format!("dropped #{n} server->client {}", crate::refcodec::describe(&buf[..k])));
+                if n == drop_nth || n >= silent_from {
+                    if log.len() < 4 {
+                        log.push(format!("dropped #{n} server->client {}", crate::refcodec::describe(&buf[..k])));
+                    }
                 } else if let Some(c) = client {
                     let _ = front.send_to(&buf[..k], c);
                 }
@@ -264,7 +268,9 @@ pub fn relay_cell(spec: &Value) -> Value {
     let _ = std::fs::create_dir_all(&cdir);
     let fname = format!("relay_{}_{}", std::process::id(), drop_nth);
     let stop = std::sync::Arc::new(std::sync::atomic::AtomicBool::new(false));
-    let (port, h) = relay(srv.addr, drop_nth, stop.clone());
+    // "silent_from": from that datagram on NOTHING gets through any more, in either direction (the peer has vanished)
+    let silent_from = spec["silent_from"].as_u64().map(|x| x as usize).unwrap_or(usize::MAX);
+    let (port, h) = relay(srv.addr, drop_nth, silent_from, stop.clone());
     let mut args: Vec<String> = vec!["tftpc".into()];
     let (src, dst);
     if upload {
@@ -281,24 +287,30 @@ pub fn relay_cell(spec: &Value) -> Value {
         src = format!("{}/{fname}", srv.send_dir);
         dst = format!("{cdir}/{fname}");
     }
-    args.extend(["-i".into(), "127.0.0.1".into(), "-p".into(), port.to_string(), "-t".into(), "1".into()]);
+    let tval = spec["t"].as_u64().unwrap_or(1);
+    args.extend(["-i".into(), "127.0.0.1".into(), "-p".into(), port.to_string(), "-t".into(), tval.to_string()]);
     if let Some((blk, ws)) = wopt {
         args.extend(["-b".into(), blk.to_string(), "-w".into(), ws.to_string()]);
     }
     let t0 = Instant::now();
-    let r = run_client(args, Duration::from_secs(25));
+    let r = run_client(args, Duration::from_secs(25 + 3 * tval));
     let took = t0.elapsed().as_secs_f64();
     stop.store(true, std::sync::atomic::Ordering::SeqCst);
     let log = h.join().unwrap_or_default();
     // the relay is gone: end whatever is left on the server side, then judge
     let t1 = Instant::now();
-    while workers_alive() && t1.elapsed() < Duration::from_secs(8) {
+    while workers_alive() && t1.elapsed() < Duration::from_secs(8 + 7 * tval.saturating_sub(1)) {
         std::thread::sleep(Duration::from_millis(20));
     }
-    let desc = format!("{} of {len} bytes with -t 1{} through a relay that loses datagram #{drop_nth} ({:?}), took {:.1} s", if upload { "upload" } else { "download" }, wopt.map(|(b, w)| format!(" -b {b} -w {w}")).unwrap_or_default(), log, took);
+    let desc = format!("{} of {len} bytes with -t {tval}{} through a relay that {} ({:?}), took {:.1} s", if upload { "upload" } else { "download" }, wopt.map(|(b, w)| format!(" -b {b} -w {w}")).unwrap_or_default(), if silent_from != usize::MAX { format!("lets nothing through from datagram #{silent_from} on") } else { format!("loses datagram #{drop_nth}") }, log, took);
     let mut viol: Vec<(String, String)> = vec![];
     match r {
         Err(hung) => viol.push(("client-hangs".into(), format!("{desc}: {hung}"))),
+        Ok(_) if silent_from != usize::MAX => {
+            // the peer vanished for good: the bundled client must give up after a bounded number of timeouts (it has
+            // returned, so it did). What `Client::run` returns is not part of C07 (the worker thread's failure is only
+            // logged; `run` returns Ok either way), and nothing else is demanded here.
+        }
         Ok(res) => {
             let b = std::fs::read(&dst).ok();
             if b.as_deref() != Some(&data[..]) {
@@ -312,7 +324,7 @@ pub fn relay_cell(spec: &Value) -> Value {
     c.states = 1;
     c.transitions = 8;
     c.nontrivial = 1;
-    c.trace_hashes.insert(fnv64(format!("{upload}{drop_nth}{}{:?}", cfg.single, wopt).as_bytes()));
+    c.trace_hashes.insert(fnv64(format!("{upload}{drop_nth}{}{:?}{silent_from}{tval}", cfg.single, wopt).as_bytes()));
     c.samples.push(json!({"srv": cfg.brief(), "relay": desc}));
     for (clause, what) in viol {
         c.violations.push(Violation { property: prop.clone(), clause, facts: facts(&[("mode", json!("relay"))]), what: format!("[{}] {}", cfg.brief(), what), replay: json!({"engine": "c14_relay", "spec": spec}), weight: 40 });
@@ -774,7 +786,11 @@ pub fn check(tier: Tier) -> Outcome {
         s.overwrite = true;
         let blks: Vec<usize> = if tier == Tier::Quick { vec![8, 512, 65464] } else { vec![8, 512, 1428, 65464] };
         for blk in blks {
-            let wss: Vec<usize> = if tier == Tier::Quick { vec![1, 2, 65535] } else { vec![1, 2, 7, 65535] };
+            let mut wss: Vec<usize> = if tier == Tier::Quick { vec![1, 2, 65535] } else { vec![1, 2, 7, 65535] };
+            if blk == 8 {
+                // byte boundaries of the 16-bit value (a window narrowed to 8 bits would become 0 or wrap)
+                wss.extend([255, 256, 257, 512, 65280]);
+            }
             for ws in wss {
                 let w = ws.min(9);
                 let mut lens = vec![0, 1, blk - 1, blk, blk + 1, w * blk, w * blk + 1];
@@ -859,7 +875,7 @@ pub fn check(tier: Tier) -> Outcome {
     if let Ok(res) = hrc.join() {
         out.absorb(res, nrc);
     }
-    out.rule = "(a) the bundled Client (ClientConfig::new + Client::run, in-process) against the real Server on loopback over the boundary grid len in {0,1,blk-1,blk,blk+1,w*blk,w*blk+1,70000,(65536*8+3)} x blksize {8,512,(1428),65464} x windowsize {1,2,(7),65535} x timeout {(1),5,(255)} x {single,multi port} x {download,upload}, plus refusals (missing file, existing file without overwrite, read-only server): files byte-identical on both sides, stored under the basename, no client-side file and an Err on refusal. (b) the real tftpc and tftpd binaries on a covering sub-grid x {IPv4, ::1} x {plain, nested, Windows-style path} x refusal kinds. (c) two real Workers (one sending, one receiving) joined by the simulated network: every placement of up to 1 (thorough 2) faults (drop, duplicate, delay-past-timeout) and both timer orders; both must end with identical files. (d) the bundled client with -t 1 behind a UDP relay that loses one of the first three data-phase datagrams, both directions, both port modes: the transfer still completes byte-identically. The grid is a boundary-value selection of a space that is not small: level = exploration. non-trivial = every run (each transfers a file or exercises a refusal).".into();
+    out.rule = "(a) the bundled Client (ClientConfig::new + Client::run, in-process) against the real Server on loopback over the boundary grid len in {0,1,blk-1,blk,blk+1,w*blk,w*blk+1,70000,(65536*8+3)} x blksize {8,512,(1428),65464} x windowsize {1,2,(7),255,256,257,512,65280,65535} x timeout {(1),5,(255)} x {single,multi port} x {download,upload}, plus refusals (missing file, existing file without overwrite, read-only server): files byte-identical on both sides, stored under the basename, no client-side file and an Err on refusal. (b) the real tftpc and tftpd binaries on a covering sub-grid x {IPv4, ::1} x {plain, nested, Windows-style path} x refusal kinds. (c) two real Workers (one sending, one receiving) joined by the simulated network: every placement of up to 1 (thorough 2) faults (drop, duplicate, delay-past-timeout) and both timer orders; both must end with identical files. (d) the bundled client with -t 1 behind a UDP relay that loses one of the first three data-phase datagrams, both directions, both port modes: the transfer still completes byte-identically. The grid is a boundary-value selection of a space that is not small: level = exploration. non-trivial = every run (each transfers a file or exercises a refusal).".into();
     out.assumptions = vec!["tftpc is run under a 20 s kill deadline (it has no timeout on its first receive)".into(), "uploads by absolute path only work when the client's working directory is / (the client strips leading separators); the in-process runs set it so".into()];
     out
 }
